@@ -31,13 +31,28 @@ def zeroOfKind (k : Bool × String × String × String) : Val :=
   else .r 0 0
 
 /-- C04: set algebra -/
-def specSet : SpecFn := fun _ _ op args _ =>
+def specSet : SpecFn := fun dom _ op args _ =>
   match op, args with
   | "UNION", [(_, a), (_, b)] => some (pointwise2 (boolOp (· || ·)) a b)
   | "INTERSECTION", [(_, a), (_, b)] => some (pointwise2 (boolOp (· && ·)) a b)
   | "DIFFERENCE", [(_, a), (_, b)] => some (pointwise2 (boolOp (fun x y => x && !y)) a b)
   | "COMPLEMENT", [(_, a)] =>
     some (pointwise1 (fun x => match x with | .b v => .ok (.b (!v)) | _ => .error "TYPE_MISMATCH") a)
+  | "CROSS", [(_, a), (_, b)] =>
+    -- relation over the same variables: position 2k = unprimed (from a), 2k-1 = primed (from b)
+    some (do
+      let sizes := dom
+      let rsizes := posSizes dom true
+      let n := card rsizes
+      let mut out : Table := Array.mkEmpty n
+      for idx in [0:n] do
+        let ds := digits rsizes idx
+        let un := (Array.range sizes.size).map (fun k => ds.getD (2*k+1) 0)
+        let pr := (Array.range sizes.size).map (fun k => ds.getD (2*k) 0)
+        let va := a.getD (undigits sizes un) default
+        let vb := b.getD (undigits sizes pr) default
+        out := out.push (← boolOp (· && ·) va vb)
+      return out)
   | _, _ => none
 
 end Ops
